@@ -3,6 +3,7 @@
 Oracle: O3 - after erasing exactly the rewrites documented for the enabled options (side conditions decided on the input), input and output
 are structurally identical; options that are off contribute no rule. Output must compile.
 """
+import ast
 import base64
 
 from vf import common, options, pool, runner
@@ -65,6 +66,21 @@ def gen_cases(tier, seed):
     return cases
 
 
+def compile_time_effect(src):
+    """known finding key: a removed assert / `if __debug__` block holds something that acts at compile time - a yield (makes the function a generator),
+    a global / nonlocal declaration - which -O keeps although the statement never runs"""
+    try:
+        tree = ast.parse(src)
+    except Exception:
+        return None
+    from vf.oracle import matcher
+    for n in ast.walk(tree):
+        removable = isinstance(n, ast.Assert) or (isinstance(n, ast.If) and matcher.debug_test(n.test))
+        if removable and any(isinstance(m, (ast.Yield, ast.YieldFrom, ast.Await, ast.Global, ast.Nonlocal)) for m in ast.walk(n)):
+            return 'C05.removal.compile_time_effect_lost'
+    return None
+
+
 def run_O_case(case):
     """assert / __debug__ removal equals what the interpreter's -O mode runs: observe(input, optimize=1) == observe(output, optimize=1)"""
     import python_minifier as pm
@@ -96,7 +112,7 @@ def run_O_case(case):
             res['nontrivial'].append('O|' + common.sha(src) + '|' + name)
         d = observe.same(a, q)
         if d:
-            res['violations'].append({'mech': None, 'detail': 'under -O the output of [%s] behaves differently from the same option set without assert/__debug__ removal under -O: %s' % (name, observe.describe_diff(a, q)),
+            res['violations'].append({'mech': compile_time_effect(src), 'detail': 'under -O the output of [%s] behaves differently from the same option set without assert/__debug__ removal under -O: %s' % (name, observe.describe_diff(a, q)),
                                       'witness': {'optset': name, 'opts': o, 'out': out[:1500]}})
     if res['violations']:
         res['status'] = 'violation'
